@@ -318,6 +318,8 @@ func replayCase(cs Case) string {
 		}
 	case "wide":
 		return wideOne(cs.Index)
+	case "string-tag":
+		return stringTagOne(cs.Index, cs.Value, cs.OptSet)
 	case "tag-leak":
 		return leakOne(cs.Index, cs.OptSet, cs.Depth == 1, cs.Value)
 	}
@@ -384,6 +386,7 @@ func Run(r *evid.Run) {
 	formats(r)
 	tagLeaks(r)
 	memberNames(r)
+	stringTags(r)
 	wide(r)
 	float32RoundTrip(r)
 }
